@@ -152,6 +152,10 @@ def bytes_trace(byte_range, all_seconds=False, rng=None):
     ops = [{"op": "new"}, {"op": "mode", "v": "Assembly"}]
     # non-numbers and infinities applied to the board's inputs first: whatever the board stores, a step over a stuck sequencer returns
     ops += [{"op": "set_temp", "x": -1000000}, {"op": "set_ai1", "x": 2000000}, {"op": "set_ai2", "x": -2000000}]
+    # ... and with every configurable unit of the bus switched on (interrupt timer running, UART / interrupt masks set): state that a
+    # unit advances on its own must not keep the step from recognising a stuck sequencer
+    units = [{"op": "bus_write", "a": 0xFD, "v": 0x90}, {"op": "bus_write", "a": 0xFC, "v": 0x33}, {"op": "bus_write", "a": 0xFB, "v": 0xFF},
+             {"op": "bus_write", "a": 0xF9, "v": 0x3E}, {"op": "bus_write", "a": 0xF2, "v": 0xC6}]      # (a load is a master reset: re-applied after it)
     for b in byte_range:
         seconds = [0x10] if b < 240 else sorted({0x00, 0x01, 0x05, 0x10, 0x2C, 0x3F, 0x43, 0x47, 0x48, 0x4F, 0x5A, 0x6F, 0x70, 0xAA, 0xFF, b, b ^ 1, b - 16}
                                                 | set(rng.sample(range(256), 24) if rng else []))
@@ -160,6 +164,8 @@ def bytes_trace(byte_range, all_seconds=False, rng=None):
         for b2 in seconds:
             img = [b, 77, b2, 130, 5] if (b >= 240 and (b >> 2) & 3 >= 2 and b & 3 == 3) else [b, b2, 130, 5, 1]
             ops.append({"op": "load", "image": img, "ss": 16, "ps": 255})
+            if (b + b2) % 2 == 0:
+                ops += units
             ops.append({"op": "key_clock", "n": 3})
     return ops
 
